@@ -305,7 +305,7 @@ theorem onRecord_frame (C : Crypto) (L : Loc) (e : Ep) (ct : Nat) (a : Bool) (pl
   split
   · simp [ok]
   · split
-    · simp [ok]
+    · split <;> simp [ok]
     · split
       · have h := procPayload_good C L a (pl.length + 1) e pl
         exact ⟨h.1, h.2.1⟩
@@ -322,8 +322,10 @@ theorem onRecord_deliver (C : Crypto) (L : Loc) (e : Ep) (ct : Nat) (a : Bool) (
   · simp [ok] at h
   · split at h
     · rename_i h2
-      simp [ok] at h
-      exact ⟨h2, h⟩
+      split at h
+      · simp [ok] at h
+        exact ⟨h2, h⟩
+      · simp [ok] at h
     · split at h
       · exact absurd h ((procPayload_good C L a (pl.length + 1) e pl).2.2 p)
       · split at h
@@ -338,7 +340,7 @@ theorem onRecord_conn (C : Crypto) (L : Loc) (e : Ep) (ct : Nat) (a : Bool) (pl 
   split at h
   · simp [ok] at h
   · split at h
-    · simp [ok] at h
+    · split at h <;> simp [ok] at h
     · split at h
       · rename_i h3; exact Or.inr h3
       · split at h
@@ -351,5 +353,23 @@ theorem onRecord_unauth_hs (C : Crypto) (L : Loc) (e : Ep) (pl : Bytes) (hk : e.
   simp only [dtlsCtHandshake_val, dtlsCtChangeCipherSpec_val, dtlsCtApplicationData_val]
   simp only [show ¬ (22 = 20) by decide, show ¬ (22 = 23) by decide, if_false, if_true]
   exact procPayload_quiet C L _ e pl hk
+
+/-- application data is handed up only in state Connected -/
+theorem onRecord_deliver_connected (C : Crypto) (L : Loc) (e : Ep) (ct : Nat) (a : Bool) (pl p : Bytes)
+    (h : Out.deliver p ∈ (onRecord C L e ct a pl).out) : e.conn = .connected := by
+  unfold onRecord at h
+  split at h
+  · simp [ok] at h
+  · split at h
+    · split at h
+      · assumption
+      · simp [ok] at h
+    · split at h
+      · exact absurd h ((procPayload_good C L a (pl.length + 1) e pl).2.2 p)
+      · split at h
+        · split at h
+          · split at h <;> simp [ok] at h
+          · simp [ok] at h
+        · simp [ok] at h
 
 end RtcModel.DtlsHs
